@@ -1,6 +1,6 @@
 //go:build verif
 
-package c01
+package c06
 
 import (
 	"testing"
@@ -11,7 +11,7 @@ import (
 	"verif/harness/metalab"
 )
 
-var recMeta = kit.NewRecorder("C01", "meta", metalab.Rule)
+var recMeta = kit.NewRecorder("C06", "meta", metalab.Rule)
 
 func TestMetaScheduled(t *testing.T) {
 	rapid.Check(t, func(t *rapid.T) { metalab.Prop(t, true, recMeta) })
